@@ -43,16 +43,27 @@ MODELLED = [
 ASSUMPTIONS = ["parameters in their declared domain; eta1 > 1 for the exponential HEM model",
                "direct route: the jump law simulated by jump_increment is the density nu (C02/C09)"]
 THEOREM_NOTES = {
-    "C10_conversions_*": "complete: every measure (through its first-moment function m1 and finite-variation flag), every triplet, every "
-        "sequence of representation changes; exact over R (the floats add rounding of a few ulps, bounded in the case lemmas)",
+    "count": "20 statements: 6 conversions (4 positive under the guard valid_rep, the modelled ValueError, the need-for-the-guard witness), "
+             "3 named _algebra (true by construction / conversion algebra), 3 direct-route identities on generated drifts, 4 cumulant theorems "
+             "(orders 1 and 2 only), C10_hem_exponent and C10_martingale_ctmc_hem (limits of integrals of the generated density), "
+             "C10_ctmc_truncation_bias_zero / _refuted (the chain route is NOT a martingale once the measure is truncated)",
+    "C10_conversions_*": "every measure (first-moment function m1, finite-variation flag fv), every triplet, every sequence of ADMISSIBLE "
+        "representations: valid_rep fv r := fv = true or r <> ZERO (the code raises ValueError for ZERO with infinite variation, fix a05eb0c); "
+        "m1 is a total function: infinite first moments are outside the model (all shipped models have finite tail moments)",
+    "C10_martingale_cf_algebra, C10_forward_direct_algebra, C10_ctmc_route_algebra": "ALGEBRA: omega = -kappa(1) cancels for any a, sigma, pj; Jc is a free "
+        "number; they only say the hand-modelled formulas compose; content is in C10_hem_exponent / C10_martingale_ctmc_hem and in the oracle",
     "C10_hem_exponent": "the Levy-Khintchine clause is proved for HEM only (whole strip -eta2 < s < eta1, real axis); Merton / VG / CGMY: "
         "quadrature oracle only (needs the Gaussian, Frullani and Gamma integrals)",
-    "C10_cumulants_*": "cumulant1 and cumulant2 as first/second derivative of kappa at 0 for HEM, Merton, VG; CGMY partial (cumulant1 in every "
-        "branch, cumulant2 for y not in {0,1} given the functional equation of Gamma); cumulant4/6 by the Cauchy-integral oracle only",
-    "C10_martingale_direct_*": "algebra on the generated drifts; that E exp(jumps) = exp(T pj(1)) is the LK clause (proved for HEM, "
-        "oracle for Merton)",
-    "C10_martingale_ctmc": "algebra: given additivity of the first moment at 0 and H_rep, the chain drift with the exact jump law grows at r-d; "
-        "H_rep discharged for ZERO-declared models by C10_Hrep_zero_declared (+ C10_hem_exponent for HEM)",
+    "C10_cumulants_*": "orders 1 and 2 only, as first/second derivative of kappa at 0 for HEM, Merton, VG; CGMY partial (cumulant1 in every branch, "
+        "cumulant2 for y not in {0,1} given CG = c Gamma(-y) and Gamma(2-y) = (1-y)(-y)Gamma(-y) for an OPAQUE Gamma: a hypothesis, not a "
+        "fact about scipy.special.gamma); orders 4 and 6 by the Cauchy-integral oracle only; orders 3, 5 are not offered by the library",
+    "C10_martingale_direct_*": "algebra on the generated drifts; that E exp(jumps) = exp(T pj(1)) is the LK clause (C10_hem_exponent for HEM, hence "
+        "1 < eta1; oracle for Merton); the law of jump_increment is assumed (C02)",
+    "C10_martingale_ctmc_hem": "un-truncated chain, HEM: Jc is the limit of int (e^x - 1 - x) hem_nu and m1 the generated hem_integrate_x: growth = r - d",
+    "C10_ctmc_truncation_bias_zero / _refuted": "the chain truncates the measure before converting: growth = r - d - int_outside (e^x - 1) nu for a "
+        "ZERO-declared model; finding F-C10-5 (KNOWN, magnitude 1e-5 .. 1e-2 per year, growing as h decreases)",
+    "moment strip": "exponential models outside the strip (E exp(L_1) infinite) are refused by the code (fixes a7ff60d, 5d1e949): oracle `_strip_oracle`; "
+        "no theorem states the strip of VG / CGMY",
     "complex arguments of levy_exponent": "not modelled; oracle compares levy_exponent(u) at real u with the complex LK quadrature",
 }
 
@@ -180,6 +191,7 @@ def _oracle(res, rng):
             try:
                 c = float(getattr(model.cumulant, f"cumulant{n}")(t))
             except NotImplementedError:
+                res.bump("cumulant_order_not_offered_by_the_library", f"{kind} cumulant{n}")
                 continue
             ref = t * cauchy_derivative(model, n, rho)
             res.count(("cum", kind, pk, n, t), kind=f"oracle cumulant{n}")
@@ -226,38 +238,78 @@ def _oracle(res, rng):
             res.violation("bs: forward routes disagree with S0 exp((r-d)T)", dict(kind="forward-bs", sigma=sigma, r=r, d=d, T=T,
                                                                                direct=got1, cf=[got2.real, got2.imag], expected=fwd))
     _conversions_oracle(res, rng)
+    _strip_oracle(res, rng)
+    _ctmc_skips(res)
+
+
+CTMC_BIAS_TOL = 1e-6      # stated tolerance on |growth rate - (r - d)| per year for the Markov-chain route
+CTMC = {"attempts": 0, "skipped": 0}
 
 
 def _ctmc_route(res, rng, kind, params, em, nu, hk, r, d, ykey):
-    """drift of the Markov-chain approximation + exact (truncated) jump law = r - d, up to the mass outside the truncation"""
+    """growth rate of E S_t when the chain's jump law is replaced by the exact law of the measure the chain works with
+    (the TRUNCATED measure): it must be r - d within CTMC_BIAS_TOL.  The truncation removes
+    tail = int_outside (e^x - 1 - x h_declared(x)) nu from the exponent while omega is computed from the un-truncated
+    exponent: bias = -tail (finding F-C10-5); a bias that is NOT -tail is some other defect and is reported untagged."""
     from rpylib.distribution.sampling import SamplingMethod
     from rpylib.grid.spatial import CTMCUniformGrid
     from rpylib.process.markovchain.markovchain import MarkovChainProcess, compute_mu_h
     from rpylib.product.payoff import Forward
     from rpylib.product.product import Product
     from rpylib.product.underlying import Spot
-    try:
-        grid = CTMCUniformGrid(h=0.05, model=em)
-        mcp = MarkovChainProcess(model=em, method=SamplingMethod.BINARYSEARCHTREEADAPTED1D
-                                 if hasattr(SamplingMethod, "BINARYSEARCHTREEADAPTED1D") else list(SamplingMethod)[0], grid=grid)
-        mcp.initialisation(Product(payoff_underlying=Spot(), payoff=Forward(strike=1.0), maturity=1.0))
-    except Exception as e:  # noqa  (the chain construction itself belongs to C01/C04)
-        res.notes.append(f"ctmc route skipped for {kind} {params}: {type(e).__name__}: {str(e)[:80]}")
-        return
-    tnu = mcp.model.levy_triplet.nu           # truncated measure
-    l, rr = tnu.truncations
-    mu_h = float(compute_mu_h(levy_measure=tnu, grid=grid, axis=grid.axes[0], origin=grid.origin_coordinate.value))
-    sig = em.levy_triplet.sigma
-    Jc = complex(lk_quad(tnu, "center", 1.0, split=(l, rr))).real   # int (e^x - 1 - x) nu_truncated
-    tail = complex(lk_quad(nu, hk, 1.0, outside=(l, rr))).real  # what the truncation removed from kappa(1)
-    growth = float(mcp._process_drift) + mu_h + 0.5 * sig ** 2 + Jc
-    res.count(("fwd-ctmc", kind, tuple(sorted(params.items())), r, d), kind="oracle forward ctmc route")
-    if not _close(growth + tail, r - d, rel=1e-7, ab=1e-8):
-        rep = dict(kind="forward-ctmc", model=kind, params=params, r=r, d=d, truncations=[l, rr], process_drift=float(mcp._process_drift), mu_h=mu_h,
-                   growth_under_exact_truncated_law=growth, removed_tail=tail, expected=r - d)
-        if kind == "cgmy":
-            rep["finding"] = "F-C10-2" if params["y"] < 0 else ("F-C10-3" if params["y"] == 0 else ("F-C10-4" if params["y"] == 1 else None))
-        res.violation(f"{kind}{ykey}: the Markov-chain drift with the exact jump law does not grow at r-d", rep)
+    for h in ((0.05, 0.02) if res.tier == "quick" else (0.05, 0.02, 0.01)):
+        CTMC["attempts"] += 1
+        try:
+            grid = CTMCUniformGrid(h=h, model=em)
+            mcp = MarkovChainProcess(model=em, method=SamplingMethod.BINARYSEARCHTREEADAPTED1D
+                                     if hasattr(SamplingMethod, "BINARYSEARCHTREEADAPTED1D") else list(SamplingMethod)[0], grid=grid)
+            mcp.initialisation(Product(payoff_underlying=Spot(), payoff=Forward(strike=1.0), maturity=1.0))
+        except Exception as e:  # noqa  (the chain construction itself belongs to C01/C04); counted, see _ctmc_skips
+            CTMC["skipped"] += 1
+            res.bump("ctmc_route_skipped", f"{kind}{ykey} {type(e).__name__}")
+            res.notes.append(f"ctmc route skipped for {kind} {params} h={h}: {type(e).__name__}: {str(e)[:80]}")
+            continue
+        tnu = mcp.model.levy_triplet.nu           # truncated measure
+        l, rr = tnu.truncations
+        mu_h = float(compute_mu_h(levy_measure=tnu, grid=grid, axis=grid.axes[0], origin=grid.origin_coordinate.value))
+        sig = em.levy_triplet.sigma
+        Jc = complex(lk_quad(tnu, "center", 1.0, split=(l, rr))).real   # int (e^x - 1 - x) nu_truncated
+        tail = complex(lk_quad(nu, hk, 1.0, outside=(l, rr))).real      # what the truncation removed from kappa(1)
+        growth = float(mcp._process_drift) + mu_h + 0.5 * sig ** 2 + Jc
+        bias = growth - (r - d)
+        res.count(("fwd-ctmc", kind, tuple(sorted(params.items())), r, d, h), kind="oracle forward ctmc route")
+        res.bump("ctmc_h", h)
+        rep = dict(kind="forward-ctmc", model=kind, params=params, r=r, d=d, h=h, truncations=[l, rr], process_drift=float(mcp._process_drift),
+                   mu_h=mu_h, growth_under_exact_truncated_law=growth, bias=bias, removed_tail=tail, expected=r - d)
+        explained = _close(bias + tail, 0.0, rel=1e-7, ab=1e-8)
+        if not explained:
+            if kind == "cgmy":
+                rep["finding"] = "F-C10-2" if params["y"] < 0 else ("F-C10-3" if params["y"] == 0 else ("F-C10-4" if params["y"] == 1 else None))
+            res.violation(f"{kind}{ykey}: the Markov-chain drift with the exact jump law does not grow at r-d "
+                          f"(and the gap is not the truncated tail)", rep)
+        elif abs(bias) > CTMC_BIAS_TOL:
+            rep["finding"] = "F-C10-5"
+            res.violation(f"{kind}{ykey}: the Markov-chain drift with the exact law of the truncated measure misses r-d by the exponential "
+                          f"moment of the truncated tails (|bias| > {CTMC_BIAS_TOL:g} per year)", rep)
+
+
+def _ctmc_skips(res):
+    if CTMC["attempts"] and CTMC["skipped"] > 0.25 * CTMC["attempts"]:
+        res.broke("ctmc route oracle", f"{CTMC['skipped']} of {CTMC['attempts']} Markov-chain constructions raised: the route is not being checked")
+    res.notes.append(f"ctmc route: {CTMC['attempts'] - CTMC['skipped']} of {CTMC['attempts']} chain constructions evaluated")
+    CTMC["attempts"] = CTMC["skipped"] = 0
+
+
+def matches_known(v, known):
+    """a recorded finding explains only the failures it predicts"""
+    r = v["replay"]
+    if known["id"] == "F-C10-5":
+        # truncation bias of the Markov-chain route: the gap must BE minus the removed tail integral (same quadrature, same
+        # declared representation) and of the recorded order of magnitude (below 5e-2 per year)
+        return (r.get("kind") == "forward-ctmc" and "bias" in r and "removed_tail" in r
+                and abs(r["bias"] + r["removed_tail"]) <= 1e-7 * max(1.0, abs(r["removed_tail"])) + 1e-8
+                and CTMC_BIAS_TOL < abs(r["bias"]) < 5e-2)
+    return False
 
 
 class StubMeasure:
@@ -277,26 +329,102 @@ def _dy(rng):
     return rng.randrange(-64, 65) / 16.0
 
 
-def _conversions_oracle(res, rng):
-    from rpylib.model.levymodel.levymodel import LevyTriplet, LevyRepresentation as LR
-    reps = [LR.ZERO, LR.CENTER, LR.ONEONE, LR.TILDE]
-    for _ in range(_cfg(res)["seqs"]):
-        nu = StubMeasure(_dy(rng), _dy(rng), _dy(rng), rng.random() < 0.5)
-        a0, r0 = _dy(rng), rng.choice(reps)
-        seq = [rng.choice(reps) for _ in range(rng.randrange(1, 6))]
+def _run_sequence(nu, a0, r0, seq):
+    """(status, a after the sequence, a after the direct change, a after coming back)"""
+    from rpylib.model.levymodel.levymodel import LevyTriplet
+    try:
         t = LevyTriplet(sigma=0.0, nu=nu, a=a0, representation=r0)
         for r_ in seq:
             t.set_representation(r_)
         direct = LevyTriplet(sigma=0.0, nu=nu, a=a0, representation=r0)
         direct.set_representation(seq[-1])
-        res.count(("conv", a0, r0.name, tuple(x.name for x in seq), nu.v[(-1, 1)], nu.fv), kind="oracle set_representation sequences")
-        res.bump("conversion_sequence_length", len(seq))
-        if t.a != direct.a or t.representation != direct.representation:
-            res.violation("set_representation is path dependent", dict(kind="conversion", a=a0, rep=r0.name, seq=[x.name for x in seq],
-                                                                          got=t.a, direct=direct.a, I11=nu.v[(-1, 1)], fv=nu.fv))
+        a_seq, a_dir, rep_ok = t.a, direct.a, t.representation == direct.representation
         t.set_representation(r0)
-        if t.a != a0:
-            res.violation("set_representation is not reversible", dict(kind="conversion-back", a=a0, rep=r0.name, seq=[x.name for x in seq], got=t.a))
+        return "ok", a_seq, a_dir, t.a, rep_ok
+    except ValueError as e:
+        return f"ValueError: {e}", None, None, None, None
+    except Exception as e:  # noqa
+        return f"{type(e).__name__}: {e}", None, None, None, None
+
+
+def _zero_involved(fv, r0, seq):
+    """does some actual conversion of the sequence (or of the way back) need the ZERO representation of an infinite-variation measure?"""
+    from rpylib.model.levymodel.levymodel import LevyRepresentation as LR
+    if fv:
+        return False
+    cur = r0
+    for r_ in list(seq) + [r0]:
+        if r_ != cur and (r_ == LR.ZERO or cur == LR.ZERO):
+            return True
+        cur = r_
+    # the direct change r0 -> seq[-1]
+    return seq[-1] != r0 and (seq[-1] == LR.ZERO or r0 == LR.ZERO)
+
+
+def _conversions_oracle(res, rng):
+    """`raises ValueError (ZERO representation of an infinite-variation measure) or is path-independent and reversible`:
+    dyadic stub measures (exact) and the real measures of every model, CGMY y >= 1 included, every representation included"""
+    from rpylib.model.levymodel.levymodel import LevyRepresentation as LR
+    reps = [LR.ZERO, LR.CENTER, LR.ONEONE, LR.TILDE]
+    jobs = []
+    for _ in range(_cfg(res)["seqs"]):
+        jobs.append(("dyadic", None, StubMeasure(_dy(rng), _dy(rng), _dy(rng), rng.random() < 0.5), _dy(rng), 0.0))
+    for kind, params in L.model_sets(rng, 1):
+        model, nu = L.build(kind, params)
+        for _ in range(3):
+            jobs.append((kind, params, nu, L.rnd(rng, -1, 1, 3), 1e-12))
+    for src, params, nu, a0, tol in jobs:
+        fv = bool(nu.jump_of_finite_variation())
+        r0 = rng.choice(reps)
+        if src != "dyadic":
+            r0 = rng.choice([LR.CENTER, LR.ONEONE, LR.TILDE] + ([LR.ZERO] if fv else []))   # a declared representation that exists
+        seq = [rng.choice(reps) for _ in range(rng.randrange(1, 6))]
+        status, a_seq, a_dir, a_back, rep_ok = _run_sequence(nu, a0, r0, seq)
+        must_raise = _zero_involved(fv, r0, seq)
+        res.count(("conv", src, a0, r0.name, tuple(x.name for x in seq), fv, json.dumps(params, sort_keys=True)), kind=f"oracle set_representation sequences ({'real measure' if src != 'dyadic' else 'dyadic stub'})")
+        res.bump("conversion_sequence_length", len(seq))
+        res.bump("conversion_outcome", "raises ValueError" if status.startswith("ValueError") else status.split(":")[0])
+        rep = dict(kind="conversion", source=src, params=params, a=a0, rep=r0.name, seq=[x.name for x in seq], fv=fv, status=status,
+                   got=a_seq, direct=a_dir, back=a_back, finding="F-C10-6" if not fv else None)
+        if status != "ok":
+            if not (status.startswith("ValueError") and must_raise):
+                res.violation("set_representation raises where the conversion is well defined (or raises something other than ValueError)", rep)
+            continue
+        if must_raise:
+            res.violation("set_representation through the ZERO representation of an infinite-variation measure neither raises nor is meaningful", rep)
+            continue
+        bad = (not rep_ok or any(x is None or x != x or abs(x) == INF for x in (a_seq, a_dir, a_back))
+               or abs(a_seq - a_dir) > tol * max(1.0, abs(a_dir)) or abs(a_back - a0) > tol * max(1.0, abs(a0)))
+        if bad:
+            res.violation("set_representation is path dependent or not reversible", rep)
+
+
+def _strip_oracle(res, rng):
+    """exponential models whose parameters make E exp(L_1) infinite must be refused (ValueError), never return a forward"""
+    bad_sets = [("cgmy", dict(c=1.0, g=4.0, m=0.8, y=0.5)), ("cgmy", dict(c=0.7, g=3.0, m=0.3, y=1.5)), ("cgmy", dict(c=1.0, g=4.0, m=0.9, y=-0.5)),
+                ("vg", dict(sigma=0.9, nu=1.5, theta=0.3)), ("vg", dict(sigma=1.2, nu=2.0, theta=0.0)),
+                ("hem", dict(sigma=0.1, p=0.4, eta1=0.5, eta2=5.0, intensity=1.0)), ("hem", dict(sigma=0.1, p=0.4, eta1=0.9, eta2=5.0, intensity=2.0)),
+                ("hem", dict(sigma=0.1, p=0.4, eta1=1.0, eta2=5.0, intensity=2.0))]
+    bad_sets.append(("cgmy", dict(c=L.rnd(rng, 0.2, 2), g=L.rnd(rng, 2, 8, 1), m=L.rnd(rng, 0.1, 0.95), y=rng.choice([-0.5, 0.0, 0.3, 1.0, 1.5]))))
+    bad_sets.append(("hem", dict(sigma=0.1, p=L.rnd(rng, 0.1, 0.9), eta1=L.rnd(rng, 0.1, 0.99), eta2=L.rnd(rng, 1, 9, 1), intensity=L.rnd(rng, 0.5, 3))))
+    for kind, params in bad_sets:
+        lo, hi = strip(kind, params)
+        if hi > 1.0:
+            continue
+        res.count(("strip", kind, tuple(sorted(params.items()))), kind="oracle parameters outside the moment strip must be refused")
+        try:
+            em = L.build_exp(kind, params, 100.0, 0.03, 0.01)
+            got = complex(em.log_characteristic_function(1.0, -1j))
+        except (ValueError, ZeroDivisionError) as e:
+            res.bump("strip_outcome", type(e).__name__)
+            continue
+        except Exception as e:  # noqa
+            res.violation(f"{kind}: exponential model with E exp(L_1) infinite raises {type(e).__name__} (not a clear refusal)",
+                          dict(kind="strip", model=kind, params=params, raised=f"{type(e).__name__}: {e}", finding="F-C10-7"))
+            continue
+        res.violation(f"{kind}: exponential model accepts parameters with E exp(L_1) infinite and returns a forward",
+                      dict(kind="strip", model=kind, params=params, strip=[lo, hi], forward=[got.real, got.imag], omega=float(em.omega),
+                           finding="F-C10-7"))
 
 
 # ============================================================================================ Coq correspondence
@@ -384,9 +512,10 @@ def _drift_cases(res, rng, per_group):
         em = L.build_exp("hem", p, spot, r, d)
         v = float(em.process_drift())
         tl, _ = tol_lit(v)
-        cases.append(Case(("pd", "hem"), f"Rabs (hem_process_drift {rlit(r)} {rlit(d)} {rlit(p['sigma'])} {rlit(p['intensity'])} "
+        cases.append(Case(("pd", "hem"), f"Rabs (hem_process_drift {rlit(r)} {rlit(d)} {rlit(p['sigma'])} {rlit(p['intensity'])} {rlit(p['eta1'])} "
                                          f"(hem_xi {_args(p, ('p', 'eta1', 'eta2'))}) - {rlit(v)}) <= {tl}",
-                          f"unfold hem_process_drift, hem_xi. {I80}", dict(model="hem", params=p, r=r, d=d, impl=v)))
+                          "unfold hem_process_drift, hem_xi. replace (Rleb _ 1) with false by (symmetry; apply Rleb_false; lra). "
+                          f"{I80}", dict(model="hem", params=p, r=r, d=d, impl=v)))
         om = float(em.omega)
         tl, _ = tol_lit(om)
         cases.append(Case(("omega", "hem"), f"Rabs (omega_of (hem_a {_args(p, ('intensity', 'p', 'eta1', 'eta2'))}) {rlit(p['sigma'])} "
@@ -433,20 +562,21 @@ def _conversion_cases(res, rng, per_group):
         if k % 3 == 2:
             kind = rng.choice(["hem", "merton", "vg", "cgmy"])
             params = dict(hem=L.hem_params, merton=L.merton_params, vg=L.vg_params, cgmy=L.cgmy_params)[kind](rng)
-            if kind == "cgmy" and params["y"] >= 1:
-                params["y"] = 0.5
             _, real_nu = L.build(kind, params)
-            i11, tl_, tr_ = (float(real_nu.integrate_against_x(-1, 1)), float(real_nu.integrate_against_x(-INF, -1)),
-                             float(real_nu.integrate_against_x(1, INF)))
-            nu = StubMeasure(i11, tl_, tr_, bool(real_nu.jump_of_finite_variation()))
+            fv_real = bool(real_nu.jump_of_finite_variation())
+            # infinite variation (CGMY y >= 1): int_{-1}^{1} x nu is not finite and never used by an admissible conversion
+            i11 = float(real_nu.integrate_against_x(-1, 1)) if fv_real else 0.0
+            tl_, tr_ = float(real_nu.integrate_against_x(-INF, -1)), float(real_nu.integrate_against_x(1, INF))
+            nu = StubMeasure(i11, tl_, tr_, fv_real)
             a0 = L.rnd(rng, -1, 1, 3)
             src = kind
         else:
             nu = StubMeasure(_dy(rng), _dy(rng), _dy(rng), rng.random() < 0.5)
             a0 = _dy(rng)
             src = "dyadic"
-        r0 = rng.choice(list(LR))
-        seq = [rng.choice(list(LR)) for _ in range(rng.randrange(1, 5))]
+        admissible = [x for x in LR if nu.fv or x != LR.ZERO]     # the guard valid_rep of the theorems
+        r0 = rng.choice(admissible)
+        seq = [rng.choice(admissible) for _ in range(rng.randrange(1, 5))]
         t = LevyTriplet(sigma=0.0, nu=nu, a=a0, representation=r0)
         for r_ in seq:
             t.set_representation(r_)
@@ -458,7 +588,8 @@ def _conversion_cases(res, rng, per_group):
         stmt = (f"forall m1 : R -> R -> R, m1 (-1) 1 = {rlit(i11)} -> m1 (- INFV) (-1) = {rlit(tl_)} -> m1 1 INFV = {rlit(tr_)} -> "
                 f"Rabs (t_a (set_representation INFV m1 {fvs} {REPN[seq[-1].value]} (set_representations INFV m1 {fvs} {seq_l} "
                 f"(mkTriplet {rlit(a0)} {REPN[r0.value]}))) - {rlit(v)}) <= {tol}")
-        proof = ("intros m1 H1 H2 H3. rewrite conversions_path_independent, set_representation_a. "
+        proof = ("intros m1 H1 H2 H3. rewrite conversions_path_independent, set_representation_a by "
+                 "(unfold valid_rep; cbn [t_rep]; repeat first [apply Forall_nil | apply Forall_cons]; first [left; reflexivity | right; discriminate]). "
                  "unfold canonical_of, to_canonical, of_canonical, I11, Tails. cbn [t_a t_rep]. rewrite ?H1, ?H2, ?H3. "
                  + ("match goal with |- Rabs ?e <= 0 => replace e with 0 by field end. rewrite Rabs_R0. lra." if src == "dyadic" else I80))
         cases.append(Case(("conv", src, k), stmt, proof, dict(a=a0, rep=r0.name, seq=[x.name for x in seq], I11=i11, tails=[tl_, tr_], fv=nu.fv, impl=v)))
@@ -540,13 +671,15 @@ def replay(path):
     return 1
 
 
-LEVEL_TEXT = ("Proof (partial): 16 Coq theorems. The four drift conversions of LevyTriplet are re-translated from levymodel.py on every run and "
-              "set_representation is proved path-independent and reversible for all triplets, measures and sequences of representations. "
+LEVEL_TEXT = ("Proof (partial): 20 Coq statements (3 of them plain algebra, named _algebra). The four drift conversions of LevyTriplet are re-translated from levymodel.py on every run and "
+              "set_representation is proved path-independent and reversible for all triplets, measures and sequences of representations admissible "
+              "for the measure (ZERO needs finite variation; the code raises otherwise). "
               "On the real axis (kappa(s) = psi(-i s)) the generated pure-jump exponents, cumulants and simulation drifts of HEM, Merton, VG, "
               "CGMY and Black-Scholes satisfy: cumulant1/2 = t * first/second derivative of kappa at 0 (CGMY partially), the characteristic-"
-              "function route and the direct-simulation drift (BS, Merton, HEM) give the forward S0 exp((r-d)T), the Markov-chain drift does "
-              "so given additivity of the first moment and the Levy-Khintchine clause, and for HEM the exponent is proved to be the "
-              "Levy-Khintchine integral of the generated density in the declared representation. For Merton, VG and CGMY the exponent-versus-"
+              "function route (algebra) and the direct-simulation drift (BS, Merton, HEM with 1 < eta1) give the forward S0 exp((r-d)T); for HEM "
+              "the exponent is proved to be the Levy-Khintchine integral of the generated density and the un-truncated Markov-chain drift "
+              "to give the forward; with the truncation the code applies the chain route is proved NOT to be a martingale (known finding "
+              "F-C10-5: bias = minus the exponential moment of the removed tails). For Merton, VG and CGMY the exponent-versus-"
               "density clause, higher cumulants and complex arguments are validated only by the mpmath quadrature / Cauchy-integral oracle.")
 LEVEL_NOTE = ("Trusted: Coq kernel, standard real/classical axioms, py2coq (fail-closed), the hand model of levy_exponent on the real axis "
               "(complex arithmetic not modelled) tied by interval case lemmas on levy_exponent(-1j*s).real, Gamma as an opaque function.")
